@@ -14,6 +14,10 @@ Correspondence (real skyllh code vs. Model/Stat.lean through Driver/C12.lean):
   * purity oracle on every helper (TS classes, calculate_pval_from_trials[_mixed], polynomial_fit): byte snapshots of all
     array arguments before/after, same argument objects called twice and with other scalar parameters vs. fresh
     copies, inputs as list / int64 / float32 / float64 / read-only / non-contiguous arrays;
+  * histories on one real single-dataset (both numerical regimes, ns at fit-parameter index 0 or 1), multi-dataset and
+    ns-profile LLH-ratio object against the state machines LlhSt / MultiSt / ProfSt; the gamma-fit function against
+    pGamma / truncSample (fitted parameters observed); the parameter lookup of the TS call against tsCall;
+  * a branch counter per modelled function (evidence: coverage.model_branches) and a directed corpus for every branch;
   * Python keyword binding (pyBind) vs. the real interpreter on generated signatures, exact.
 Property oracles (implementation only): documented definitions in exact `fractions`, analytic + finite
 difference derivatives of the real LLH ratio, range / monotonicity / inclusive>=strict of p-values, residual
